@@ -54,7 +54,7 @@ type raceSite struct {
 // firstRepoFrame returns the first frame of a stack (lines of a report
 // section) that lies in the repository under test.
 func firstRepoFrame(lines []string) (raceSite, bool) {
-	repo := os.Getenv("VERIF_REPO")
+	repo := os.Getenv("VH_REPO")
 	if repo == "" {
 		repo = "/repo"
 	}
